@@ -55,7 +55,7 @@ impl Fixture {
         // state is built with no allow-list in force ("data from before the list was introduced")
         let subj = Subject::with(kind, Config { snapshot_days: 14, snapshot_versions: 4 }, None, Some(wrap))?;
         let mut rng = Rng::new(seed).fork(0xF1C5);
-        let clients: Vec<Uuid> = (0..3).map(|_| rng.uuid()).collect();
+        let clients: Vec<Uuid> = (0..3).map(|i| if i == 0 { rng.uuid() } else { rng.uuid_any() }).collect();
         let mut f = Fixture { subj, clients, chains: vec![vec![]; 3], ids: vec![], hook, last_dump: None, extra_clients: vec![] };
         for c in 0..3 {
             let n = 3 + c * 2;
@@ -294,7 +294,7 @@ impl Gram {
             Pid::Latest => idtxt(*chain.last().unwrap()),
             Pid::Ancestor => idtxt(chain[0]),
             Pid::Nil => idtxt(Uuid::nil()),
-            Pid::Random => idtxt(rng.uuid()),
+            Pid::Random => idtxt(if rng.pct(50) { rng.uuid() } else { rng.uuid_any() }),
             Pid::NonUuid => "not-a-uuid".to_string(),
             Pid::TooLong => "ab".repeat(2048),
             Pid::Percent => idtxt(*chain.last().unwrap()).replace('-', "%2D"),
@@ -321,7 +321,7 @@ impl Gram {
             Cid::Long37 => r = r.header("X-Client-Id", &format!("{k}0")),
             Cid::NonHex => r = r.header("X-Client-Id", &k.replacen(|c: char| c.is_ascii_hexdigit(), "g", 1)),
             Cid::Known => r = r.header("X-Client-Id", &k),
-            Cid::Unknown => r = r.header("X-Client-Id", &rng.uuid().to_string()),
+            Cid::Unknown => r = r.header("X-Client-Id", &(if rng.pct(50) { rng.uuid() } else { rng.uuid_any() }).to_string()),
             Cid::Braced => r = r.header("X-Client-Id", &format!("{{{k}}}")),
             Cid::Urn => r = r.header("X-Client-Id", &format!("urn:uuid:{k}")),
             Cid::Simple => r = r.header("X-Client-Id", &known.simple().to_string()),
@@ -920,7 +920,15 @@ pub fn shard_run_c16(tier: &str, seed: u64, replay_case: Option<usize>, shard: S
             let mut twin = match Fixture::new(backend, seed, None) {
                 Ok(f) => f,
                 Err(e) => {
-                    out.errors.push(format!("fixture: {e:#}"));
+                    let m = format!("{e:#}");
+                    if m.contains("add-version failed: 4") || m.contains("add-snapshot failed: 4") {
+                        // building the server's state uses only well-formed requests with well-formed
+                        // client ids and no allow-list in force
+                        out.found.push(found("C16", format!("with no allow-list configured a well-formed request carrying a well-formed client id was refused while building the test state: {m}"), json!({"origin": "c16-fixture", "case": case})));
+                        out.cov = cov;
+                        return out;
+                    }
+                    out.errors.push(format!("fixture: {m}"));
                     continue;
                 }
             };
@@ -933,7 +941,7 @@ pub fn shard_run_c16(tier: &str, seed: u64, replay_case: Option<usize>, shard: S
             };
             let a = probe.clients[0];
             let b = probe.clients[2];
-            let nodata = Rng::new(seed).fork(0xC16).uuid();
+            let nodata = Rng::new(seed).fork(0xC16).uuid_any();
             let list: Option<HashSet<Uuid>> = match list_kind {
                 0 => None,
                 1 => Some(HashSet::new()),
@@ -949,7 +957,7 @@ pub fn shard_run_c16(tier: &str, seed: u64, replay_case: Option<usize>, shard: S
                 }
             };
             let unlisted_data = fx.clients[1];
-            let unknown = Rng::new(seed).fork(0xC16 + 1).uuid();
+            let unknown = Rng::new(seed).fork(0xC16 + 1).uuid_any();
             let mut classes = vec![IdClass::Listed, IdClass::UnlistedWithData, IdClass::UnlistedUnknown, IdClass::Malformed];
             for f in 0..4u8 {
                 classes.push(IdClass::AltListed(f));
